@@ -469,6 +469,7 @@ def unit_conv(src, prop, angle_kind='Rad'):
             u.lemma_texts.append(c_conv.handwritten_c07())
         else:
             u.lemma_texts.append(open(os.path.join(os.path.dirname(os.path.dirname(os.path.abspath(__file__))), 'contracts', 'handwritten', 'c05_laws.rs')).read())
+            u.lemma_texts.append(open(os.path.join(os.path.dirname(os.path.dirname(os.path.abspath(__file__))), 'contracts', 'handwritten', 'c05b_laws.rs')).read())
     return u
 
 
@@ -510,6 +511,11 @@ def unit_C08(src, k):
         u.lemma_texts.append(sym.HELPER_LEMMAS)
         add_laws(u, c_xform.laws(F, k))
         u.lemma_texts.append(c_xform.handwritten_matrix_inverse(k))
+        if k == 'b3':
+            # one certified identity of the undo law (p_decb3_undo_id4) is seed-sensitive: it verifies in ~20 s under seeds 1, 5,
+            # 11, 23 and hangs under seed 0 in some contexts; pass B of this unit starts from seed 1 (the retry of props.run_unit
+            # covers the other seeds)
+            u.verus_extra = {'B': ('--smt-option', 'smt.random_seed=1')}
     else:
         for L in c_quat.laws(F):
             if L.name in ('q_ring', 'q_inverse'):
@@ -628,6 +634,8 @@ def unit_arc(src, prop):
                 add_laws(u, [L])
         u.lemma_texts.append(open(os.path.join(hw, 'c15_laws.rs')).read())
         u.poly_texts.append(open(os.path.join(hw, 'c15_poly.rs')).read())
+        u.lemma_texts.append(open(os.path.join(hw, 'c15c_laws.rs')).read())
+        u.poly_texts.append(open(os.path.join(hw, 'c15c_poly.rs')).read())
     return u
 
 
@@ -695,6 +703,7 @@ def unit_C09(src, k):
                 u.lemma_texts.append(L.render_assumed('C01'))
         hw = os.path.join(os.path.dirname(os.path.dirname(os.path.abspath(__file__))), 'contracts', 'handwritten')
         u.lemma_texts.append(open(os.path.join(hw, 'c09_laws.rs')).read())
+        u.lemma_texts.append(open(os.path.join(hw, 'c09b_laws.rs')).read())
         u.poly_texts.append(open(os.path.join(hw, 'c09_poly.rs')).read())
     return u
 
